@@ -79,3 +79,65 @@ def global_rng_digest():
     h.update(np.asarray(st[1]).tobytes())
     h.update(repr(st[2:]).encode())
     return h.hexdigest()
+
+
+# ---------------------------------------------------------------------------------------- result fingerprints (call-history monitor)
+def fingerprint(obj, depth=0):
+    """Small JSON-able summary of a returned value, compared with a tolerance by compare_fingerprints."""
+    if depth > 3:
+        return ["o", "deep"]
+    if isinstance(obj, BaseException):
+        return ["e", type(obj).__name__]
+    if obj is None:
+        return ["n"]
+    if isinstance(obj, str):
+        return ["t", obj[:80]]
+    if isinstance(obj, (bool, int, float, complex, np.generic)):
+        z = complex(obj)
+        return ["s", z.real, z.imag]
+    if hasattr(obj, "toarray") and hasattr(obj, "shape") and int(np.prod(obj.shape)) <= 1 << 20:
+        obj = obj.toarray()
+    if isinstance(obj, np.ndarray):
+        if obj.dtype == object or obj.dtype.kind not in "biufc":
+            return ["o", "ndarray:" + str(obj.dtype)]
+        flat = np.asarray(obj, dtype=complex).reshape(-1)
+        w = np.sin(1.0 + np.arange(flat.size))
+        tot, wsum = flat.sum(), (flat * w).sum()
+        return ["a", list(obj.shape), float(tot.real), float(tot.imag), float(np.abs(flat).sum()), float(wsum.real), float(wsum.imag)]
+    if isinstance(obj, (list, tuple)):
+        return ["l", len(obj), [fingerprint(x, depth + 1) for x in obj[:8]]]
+    if isinstance(obj, dict):
+        return ["d", len(obj)]
+    return ["o", type(obj).__name__]
+
+
+def compare_fingerprints(a, b, tol):
+    """None when equal within tol (relative to the magnitudes involved), else a short description of the first difference."""
+    if a[0] != b[0]:
+        return f"kind {a[0]} vs {b[0]}"
+    k = a[0]
+    if k in "ento":
+        return None if a == b else f"{a} vs {b}"
+    if k == "d":
+        return None if a[1] == b[1] else "dict sizes differ"
+    if k == "l":
+        if a[1] != b[1]:
+            return f"lengths {a[1]} vs {b[1]}"
+        for x, y in zip(a[2], b[2]):
+            d = compare_fingerprints(x, y, tol)
+            if d:
+                return d
+        return None
+    if k == "a" and a[1] != b[1]:
+        return f"shapes {a[1]} vs {b[1]}"
+    xs = [v for v in a[1:] if isinstance(v, float)]
+    ys = [v for v in b[1:] if isinstance(v, float)]
+    scale = 1.0 + max([abs(v) for v in xs + ys if np.isfinite(v)] or [0.0])
+    for x, y in zip(xs, ys):
+        if np.isnan(x) and np.isnan(y):
+            continue
+        if x == y:
+            continue
+        if not (abs(x - y) <= tol * scale):
+            return f"{x!r} vs {y!r}"
+    return None
